@@ -48,7 +48,13 @@ func genConCfg(r *rng, workload string, tier string) ConCfg {
 		if r.Chance(0.04) {
 			// more callers than worker slots (MaxTxnThreadNum = 24): requests wait in the queue
 			c.Clients = 26 + r.Intn(14)
+		} else if r.Chance(0.02) {
+			// more callers than the request manager's input channel holds (100): wake-ups and results pile up
+			c.Clients = 105 + r.Intn(40)
 		}
+	}
+	if v := os.Getenv("VERIF_FORCE_CLIENTS"); v != "" {
+		fmt.Sscan(v, &c.Clients)
 	}
 	c.OpsPer = 2 + r.Intn(6)
 	if c.Clients > 20 {
@@ -164,6 +170,7 @@ func (cr *ConRun) runC12() {
 	// pre-generate client programs (so that the schedule does not influence the workload)
 	wr := newRng(simrt.Mix(cr.Seed, 42))
 	progs := make([][]conOp, cfg.Clients)
+	badShare := []float64{0, 0, 0.1, 0.5}[wr.Intn(4)]
 	token := int32(1000)
 	nextKey := int32(cfg.Rows + 1)
 	for c := 0; c < cfg.Clients; c++ {
@@ -182,6 +189,14 @@ func (cr *ConRun) runC12() {
 					op.SQL = fmt.Sprintf("UPDATE t SET v = %d WHERE k >= %d AND k <= %d;", token, lo, hi)
 				}
 			default: // c12b: exactly-once for inserts / deletes / updates
+				if wr.Chance(badShare) {
+					// a statement the engine must refuse (unknown table): answered once with an error, no effect,
+					// and no resource of the request manager kept
+					op.Kind = "bad"
+					op.SQL = fmt.Sprintf("SELECT k FROM nosuchtable%d WHERE k = %d;", c, i)
+					progs[c] = append(progs[c], op)
+					continue
+				}
 				switch wr.Intn(4) {
 				case 0, 1:
 					token++
@@ -327,6 +342,14 @@ func (cr *ConRun) check() {
 			if !op.Done {
 				cr.viol("C12", "call-without-reply", op.SQL)
 				return
+			}
+			if op.Kind == "bad" {
+				if op.Err == "" {
+					cr.viol("C12", "refused-statement-answered-without-error", op.SQL)
+					return
+				}
+				cr.stat("refused_statements_answered", 1)
+				continue
 			}
 			if op.Err != "" {
 				cr.viol("C12", "call-returned-error", op.SQL+": "+op.Err)
